@@ -44,6 +44,9 @@ CLAIMED = {
  "C04": ("provenance abstract interpretation of the tokenizer (finite tag domain, fixpoint over both loops, states partitioned by span mode), def-use rules for node spans",
          "Decides where positions come from on every path of the tokenizer: the start position handed to a token is built on (or compared against) the line counter of the current iteration for ordinary tokens and captured at the opener for span tokens, every end position is SrcPos(line, match.end()+1) of the current line, the unmatched-character error names the current line, the end-of-input token sits at the last end; plus the node-span rules (empty node = empty span at the following token, inner node = first child's start .. last child's end, leaf = the token's own span).",
          "The 0/1-based slice arithmetic of get_orig_text and column arithmetic beyond the `+1` forms are value-level and NOT decided; adjacency within a line follows from the rules but is not separately proven.", "3/C04"),
+ "C02": ("CFG path rules on the four sibling 'walk to the first non-nullable symbol' loops (continue-only-past-nullable, must-merge, justified break), guard / def-use rules on inclusion edges, table keys and ordering",
+         "Decides that the nullable / FIRST / FOLLOW / predict-table code generates exactly the textbook (Aho-Ullman) constraints for every grammar: no walk goes past a symbol without having established nullability, every visited symbol contributes (terminals themselves, non-terminals their FIRST) before being left, walks stop only at non-nullable symbols, the only FOLLOW-inclusion edges are owner -> symbol in an all-nullable tail, $END$ seeds the start symbol, closures run to a fixpoint, table entries are keyed (owner, token), sorted by priority and looked up with the same key shape, and is_ambiguous reports any entry without exactly one alternative.",
+         "That the accepted language equals the grammar's language, and agreement of the two factorisation settings, are NOT decided (they are semantic consequences argued by hand). The recogniser is tied to the worklist-free fixpoint algorithms in the code; a different algorithm ends in ANALYSIS-ERROR.", "3/C02"),
 }
 
 NOT_APPLICABLE = {
